@@ -21,6 +21,9 @@ Let ls := c_labels (exec e (init progs) sched).
 
 Theorem all_C01 : check_prop 1 e tr ls = true.
 Proof. destruct Hsrc as [H|H]; [apply known_C01|apply iter_C01]; assumption. Qed.
+(** no position is delivered twice, whatever panics *)
+Theorem all_nodup : chk_C01_nodup e tr = true.
+Proof. destruct Hsrc as [H|H]; [apply known_nodup|apply iter_nodup]; assumption. Qed.
 Theorem all_C02 : chk_C02 e tr = true.
 Proof. destruct Hsrc as [H|H]; [apply known_C02|apply iter_C02]; assumption. Qed.
 Theorem all_C03 : chk_C03 e tr = true.
